@@ -31,6 +31,14 @@ __CPROVER_ensures((O(st[3]) + add_bytes > maxlen) ==> (st[3] == O(st[3]) && st[2
 __CPROVER_ensures(__CPROVER_return_value == (st[2] == GOOD))
 ;
 
+/* has_remaining(c): exactly "c bytes are left", for every c (no wrap-around for huge c) */
+int k_has_remaining(size_t *st, size_t c)
+__CPROVER_requires(ST_OK(st) && STATE_OK(st) && st[1] <= st[0] && st[3] == 0)
+__CPROVER_assigns(MS_GHOSTS, __CPROVER_object_whole(st))
+__CPROVER_ensures(st[0] == O(st[0]) && st[1] == O(st[1]) && st[2] == O(st[2]))
+__CPROVER_ensures((__CPROVER_return_value != 0) == (c <= O(st[0]) - O(st[1])))
+;
+
 #define MS_DECL(SUF, T) \
 /* write_object<T>: bad stream or over the maximum: nothing is written; else the sizeof(T) bytes of t are appended */ \
 void k_write_object_##SUF(size_t *st, unsigned char *buf, size_t bufsz, size_t maxlen, T const *t) \
